@@ -200,7 +200,7 @@ static VD verify_and_decrypt(const Scn &s, const Bytes &F2, const uint8_t key[16
   {
     SimFile fin, fout;
     fin.data = F2;
-    fout.size_cap = (long)F2.size() + 4096;
+    fout.size_cap = (long)F2.size() + 64;   // a correct decryption never writes more than the body holds
     OpSpec d = base_op(s, OP_DEC, 2, &fin, &fout, (long)F2.size());
     memcpy(d.key, key, 16);
     d.T = T;
@@ -213,6 +213,50 @@ static VD verify_and_decrypt(const Scn &s, const Bytes &F2, const uint8_t key[16
     r.trace = fnv1a(fnv1a_u64(r.trace, o.sr.trace_hash ^ (uint64_t)o.ret), fout.data.data(), fout.data.size());
   }
   return r;
+}
+
+// Runs verify+decrypt in a forked child.  Used for inputs inside the region of known finding K1 (only the cipher-mode
+// byte altered, tag still valid): there the pinned code decrypts with the wrong mode, takes the pad length from garbage
+// and may read far outside its buffers, so the outcome (and whether the process survives) depends on memory layout.
+#include <unistd.h>
+#include <sys/wait.h>
+struct VDFork { bool completed = false; VD r; };
+static VDFork verify_and_decrypt_forked(const Scn &s, const Bytes &F2, const uint8_t key[16], int T) {
+  VDFork out;
+  int pfd[2];
+  if (pipe(pfd) != 0) return out;
+  pid_t pid = fork();
+  if (pid == 0) {
+    close(pfd[0]);
+    alarm(20);
+    g_ctx.hang_cb = [](int, const char *) { _exit(14); };
+    VD r = verify_and_decrypt(s, F2, key, T, HANG_VIOLATION);
+    uint8_t hdr[3] = {(uint8_t)r.vret, (uint8_t)r.dret, (uint8_t)r.cap_hit};
+    uint32_t n = (uint32_t)r.dout.size();
+    (void)!write(pfd[1], hdr, 3);
+    (void)!write(pfd[1], &n, 4);
+    size_t off = 0;
+    while (off < r.dout.size()) { ssize_t w = write(pfd[1], r.dout.data() + off, r.dout.size() - off); if (w <= 0) break; off += w; }
+    _exit(0);
+  }
+  close(pfd[1]);
+  std::string buf;
+  char tmp[65536];
+  ssize_t n;
+  while ((n = read(pfd[0], tmp, sizeof tmp)) > 0) buf.append(tmp, n);
+  close(pfd[0]);
+  int st = 0;
+  waitpid(pid, &st, 0);
+  if (WIFEXITED(st) && WEXITSTATUS(st) == 0 && buf.size() >= 7) {
+    uint32_t len;
+    memcpy(&len, &buf[3], 4);
+    if (buf.size() == 7 + (size_t)len) {
+      out.completed = true;
+      out.r.vret = buf[0]; out.r.dret = buf[1]; out.r.cap_hit = buf[2];
+      out.r.dout.assign(buf.begin() + 7, buf.end());
+    }
+  }
+  return out;
 }
 
 // ---------------------------------------------------------------- C05
@@ -275,10 +319,24 @@ static Verdict run_C05(const Scn &s) {
   if (!d.any) return skipv("fault-changed-nothing");
   // a splice that yields the complete other file is a substitution by another authentic file, not an alteration
   if (!B.G.empty() && F2 == B.G) return skipv("fault-produced-another-authentic-file");
-  VD r = verify_and_decrypt(s, F2, key, B.T, HANG_VIOLATION);
   Verdict v;
   v.case_hash = case_hash_faults(s);
   v.nontrivial = true;
+  VD r;
+  if (d.only_byte8 && F2[8] <= 4) {
+    // region of known finding K1: contain the run, classify whatever happens against the known-findings file
+    g_stats.add("probe.byte8_only_faults_run_in_fork", 1);
+    VDFork f = verify_and_decrypt_forked(s, F2, key, B.T);
+    if (!f.completed) {
+      Verdict x = viol("tampered-file-accepted", "only the cipher-mode byte was altered (to another valid mode); verify/decrypt then did not terminate normally (garbage pad length drives the export)");
+      x.sig = "cipher-mode-byte-8-not-authenticated";
+      x.case_hash = v.case_hash;
+      x.nontrivial = true;
+      return x;
+    }
+    r = f.r;
+  } else
+    r = verify_and_decrypt(s, F2, key, B.T, HANG_VIOLATION);
   v.trace_hash = r.trace;
   bool differs = r.dret && r.dout != B.P;
   Verdict x;
@@ -434,6 +492,13 @@ static Verdict run_C12(const Scn &s) {
   uint8_t key[16];
   memcpy(key, B.e.key, 16);
   Bytes F2 = apply_faults(s, B, key);
+  {
+    // known finding K1 (C05): a file whose only informative change is the cipher-mode byte still carries a valid tag and
+    // is then decrypted with the wrong mode, with memory-layout dependent results; that is C05's finding, not a
+    // verify/decrypt disagreement, so such inputs are left to C05
+    Diff d = diff_files(B.F, F2, B.e.hmode);
+    if (d.only_byte8 && memcmp(key, B.e.key, 16) == 0) return skipv("known-finding-K1-region(left-to-C05)");
+  }
   VD r = verify_and_decrypt(s, F2, key, B.T, HANG_VIOLATION);
   Verdict v;
   v.case_hash = case_hash_faults(s);
